@@ -408,3 +408,6 @@ def run(M, rep, tier, only=None):
     from . import c07, c09
     run_shared(c07, M, rep, tier, {"C07.R1": "C08.R6", "C07.R3": "C08.R6b"})
     run_shared(c09, M, rep, tier, {"C09.R1": "C08.R7"})
+    # the unit (ticks, labels) a linked dimension reports -- and the tag's units are converted to -- is the linked object's
+    from . import c05
+    run_shared(c05, M, rep, tier, {"C05.R5": "C08.R8"})
